@@ -266,3 +266,5 @@ META = {
     "outside_claim": ["anchoring for arbitrary regex text (a pattern is a program, not a first-order value): claimed for the pattern pool only"],
     "assumptions": ["a stub pattern object stands for any compiled regex: only .match(key) is used by the code (checked by the run itself: any other attribute access raises)"],
 }
+if isinstance(META.get("bounds"), dict) and "quick" in META["bounds"]:
+    META["bounds"]["quick"] += '; 10 sets of pattern objects with flags x 10 key sets x 3 positions through the library API'
